@@ -35,6 +35,11 @@ except ImportError:  # pragma: no cover  (python < 3.11)
 
 OUTPUTS = ['OalLex.lean']
 
+# the keyword arguments of the PLY entry points the model accounts for (none of them changes the regex flags, the
+# lexer states or where the rules come from)
+CALL_KEYWORDS = {'lex.lex': {'debuglog', 'errorlog', 'optimize', 'module', 'outputdir', 'lextab'},
+                 'yacc.yacc': {'debuglog', 'errorlog', 'optimize', 'module', 'outputdir', 'tabmodule'}}
+
 
 class Shape(Exception):
     pass
@@ -551,12 +556,34 @@ def generate(repo_dir):
         raise Shape('keywords / tokens / t_ignore not found')
     if not all(isinstance(k, str) and k == k.upper() and k.isascii() for k in keywords):
         raise Shape('keywords are expected to be upper-case ASCII words')
-    # lex.lex(...) in text_input must not change the regex flags (PLY default: re.VERBOSE)
+    # lex.lex(...) / yacc.yacc(...) must be called with the keyword arguments the model knows, written out: the regex
+    # flags (PLY default: re.VERBOSE), the module the rules are taken from, the start state ... can all be changed
+    # through arguments, and `*args` / `**opts` would change them without a trace in the generated table
+    n_lex = 0
     for n in ast.walk(cls):
-        if isinstance(n, ast.Call) and isinstance(n.func, ast.Attribute) and n.func.attr == 'lex' \
-                and isinstance(n.func.value, ast.Name) and n.func.value.id == 'lex':
-            if any(kw.arg == 'reflags' for kw in n.keywords):
-                raise Shape('lex.lex called with reflags')
+        if not (isinstance(n, ast.Call) and isinstance(n.func, ast.Attribute) and isinstance(n.func.value, ast.Name)):
+            continue
+        callee = '%s.%s' % (n.func.value.id, n.func.attr)
+        if callee not in CALL_KEYWORDS:
+            continue
+        if n.args:
+            raise Shape('%s called with positional / starred arguments' % callee)
+        for kw in n.keywords:
+            if kw.arg is None:
+                raise Shape('%s called with ** arguments' % callee)
+            if kw.arg not in CALL_KEYWORDS[callee]:
+                raise Shape('%s called with keyword %s (known: %s)' % (callee, kw.arg, ', '.join(sorted(CALL_KEYWORDS[callee]))))
+        kws = {kw.arg: kw.value for kw in n.keywords}
+        if not (isinstance(kws.get('module'), ast.Name) and kws['module'].id == 'self'):
+            raise Shape('%s: module is not self' % callee)
+        if callee == 'lex.lex':
+            n_lex += 1
+    if n_lex != 1:
+        raise Shape('expected exactly one lex.lex(...) call in OALParser, found %d' % n_lex)
+    # no other way to a lexer: `lex` is used as `lex.lex` only, nothing else of ply.lex is called in the module
+    for n in ast.walk(tree):
+        if isinstance(n, ast.Attribute) and isinstance(n.value, ast.Name) and n.value.id == 'lex' and n.attr != 'lex':
+            raise Shape('ply.lex is used for something else than lex.lex(...): lex.%s' % n.attr)
     has_error = False
     rules = []
     id_mode = None
